@@ -525,4 +525,103 @@ theorem WF_windDown {e : EP} (drain : Bool) (res : ExitRes) (h : WF e) (hd : e.d
   · exact WF_windDownTail _ _ _ (WF_of (WF_disallowAll e.flows h) rfl rfl)
       (by simp only [windDownPrep]; rw [disallowAll_dead]; exact hd)
 
+/-! ### The task's loops -/
+
+/-- What the reachable-state invariant consists of. -/
+def Inv2 (e : EP) : Prop := WF e ∧ DeadInv e
+
+theorem Inv2_of_alive {e : EP} (h : WF e) (hd : e.dead = false) : Inv2 e :=
+  ⟨h, by intro hc; rw [hd] at hc; cases hc⟩
+
+theorem WF_unpark {e : EP} (h : WF e) : WF (unpark e) := by
+  unfold unpark
+  split
+  · exact h
+  · split
+    · split
+      · exact WF_of (WF_modObj _ (fun o => { o with rxOpen := false }) (fun o hl => hl) h) rfl rfl
+      · exact WF_of h rfl rfl
+    · split
+      · exact WF_of h rfl rfl
+      · exact h
+  · split
+    · exact WF_enqFrame _ (WF_of h rfl rfl)
+    · split
+      · exact WF_of h rfl rfl
+      · exact h
+
+theorem unpark_dead (e : EP) : (unpark e).dead = e.dead := by
+  unfold unpark
+  split
+  · rfl
+  · split
+    · split <;> rfl
+    · split <;> rfl
+  · split
+    · simp [EP.enqFrame]
+    · split <;> rfl
+
+theorem Inv2_drainStep {e : EP} (res : ExitRes) (h : WF e) (hd : e.dead = false) :
+    Inv2 (drainStep e res).1 := by
+  have hs := WF_sendSome h
+  have hsd : (sendSome e).1.dead = false := by rw [sendSome_dead]; exact hd
+  simp only [drainStep]
+  split
+  · exact WF_windDownTail (e1 := { (sendSome e).1 with draining := none }) (sendSome e).2 e.srcEnded res
+      (WF_of hs rfl rfl) hsd
+  · exact Inv2_of_alive hs hsd
+
+theorem Inv2_closingStep {e : EP} (res : ExitRes) (h : WF e) (hd : e.dead = false) :
+    Inv2 (closingStep e res).1 := by
+  have hi := WF_windDownInbox e.inbox h
+  have hid : (windDownInbox e e.inbox).1.dead = false := by rw [windDownInbox_dead]; exact hd
+  simp only [closingStep]
+  split
+  · have := WF_windDownFinish res (WF_of hi rfl rfl : WF { (windDownInbox e e.inbox).1 with inbox := [] })
+    exact ⟨this.1, fun _ => this.2⟩
+  · exact Inv2_of_alive (WF_of hi rfl rfl) hid
+
+theorem WF_recvOne {e : EP} (w : WsIn) (rest : List WsIn) (h : WF e) : WF (recvOne e w rest).1 := by
+  simp only [recvOne]
+  apply WF_processIn
+  split
+  · exact WF_of h rfl rfl
+  · exact WF_of h rfl rfl
+
+theorem recvOne_dead (e : EP) (w : WsIn) (rest : List WsIn) : (recvOne e w rest).1.dead = e.dead := by
+  simp only [recvOne]
+  rw [processIn_dead]
+  split <;> rfl
+
+theorem settleLoop_inv (fuel : Nat) (e : EP) (acc : List Ev) (h : Inv2 e) : Inv2 (settleLoop fuel e acc).1 := by
+  induction fuel generalizing e acc with
+  | zero => exact h
+  | succ n ih =>
+    unfold settleLoop
+    by_cases hd : e.dead = true
+    · simp only [hd, if_true]; exact h
+    · have hd' : e.dead = false := by simpa using hd
+      simp only [hd', Bool.false_eq_true, if_false]
+      split
+      · exact Inv2_drainStep _ h.1 hd'
+      · split
+        · exact Inv2_closingStep _ h.1 hd'
+        · have hu := WF_unpark h.1
+          have hud : (unpark e).dead = false := by rw [unpark_dead]; exact hd'
+          split
+          · rename_i w rest _ _
+            have hp := WF_recvOne w rest hu
+            have hpd : (recvOne (unpark e) w rest).1.dead = false := by rw [recvOne_dead]; exact hud
+            split
+            · exact WF_windDown false _ hp hpd
+            · exact ih _ _ (Inv2_of_alive hp hpd)
+          · split
+            · exact WF_windDown true .ok (WF_of hu rfl rfl) hud
+            · rename_i fid rest _ hq
+              have hc := WF_closeFlow (e := { unpark e with droppedq := rest }) fid false (WF_of hu rfl rfl)
+              have hcd : (closeFlow { unpark e with droppedq := rest } fid false).1.dead = false := by
+                rw [closeFlow_dead]; exact hud
+              exact ih _ _ (Inv2_of_alive hc hcd)
+            · exact Inv2_of_alive hu hud
+
 end Penguin.Mux
